@@ -738,6 +738,17 @@ class TrajectoryStore:
                 'All trajectories in an indexable TrajectoryStore must have '
                 'flight_id field, and non-indexable stores must not have it'
             )
+        # Check for missing required values before changing any state: a
+        # trajectory that is rejected must leave the store exactly as it was.
+        # (Otherwise the failure would only be noticed half-way through
+        # writing the trajectory to the NetCDF files.)
+        for fs_name in trajectory._fieldsets:
+            for name, field in FieldSet.from_registry(fs_name).items():
+                if field.required and getattr(trajectory, name) is None:
+                    raise ValueError(
+                        f'Data field "{name}" is None in trajectory to be added'
+                    )
+
         if self.indexable is None:
             self.indexable = has_flight_id
 
